@@ -82,6 +82,10 @@ pub fn h_c17_scenario() {
     inv.content = Some(CommonContent { content: Some("<scxml version=\"1.0\" datamodel=\"null\" initial=\"c\"><state id=\"c\"/></scxml>".to_string()), content_expr: None });
     let mut f8 = Fsm::new();
     f8.vh_invoke(&mut dm, 2, &inv);
+    // ---- T9: the thread of session 1 terminates while a child is still invoked: exitInterpreter cancels the children
+    vnd_thread(9);
+    let mut f9 = Fsm::new();
+    f9.vh_exitInterpreter(&mut dm);
     // ---- T7: host shutdown
     vnd_thread(7);
     let mut ex2 = t.ex.clone();
